@@ -14,6 +14,7 @@
 //! Class keys carry the owning property as prefix: `c10:` stream protocol (items, states, finish codes, search()),
 //! `c16:` paging (request log, page concatenation, paging control in the final result, AdapterInit), `other:` neither.
 
+use std::time::Duration;
 use ldap3::adapters::{Adapter, EntriesOnly, PagedResults};
 use ldap3::controls::RawControl;
 use ldap3::{DerefAliases, Ldap, LdapConnAsync, LdapError, LdapResult, ResultEntry, Scope, SearchOptions};
@@ -214,6 +215,10 @@ fn done_bytes(msgid: i64, res: &Value) -> Vec<u8> {
 struct Server {
     pages: Vec<Value>,
     loss: (i64, i64),
+    /// the loss is a silence (the server stops sending, the connection stays) rather than a close
+    silent: bool,
+    /// the server has reached the point where it falls silent
+    went_silent: bool,
     nreq: i64,
     inbuf: Vec<u8>,
     eof: bool,
@@ -299,7 +304,9 @@ impl Server {
         if !whole.is_empty() {
             self.push(io, whole);
         }
-        if cut || (self.loss.0 == n + 1 && self.loss.1 == 0) {
+        if cut && self.silent {
+            self.went_silent = true;
+        } else if cut || (self.loss.0 == n + 1 && self.loss.1 == 0) {
             self.close(io);
         }
     }
@@ -459,7 +466,7 @@ fn err_json(e: &LdapError, obs: &RefCell<Obs>) -> Value {
         LdapError::OpSend { .. } => ("fail", "OpSend"),
         LdapError::ResultRecv { .. } => ("fail", "ResultRecv"),
         LdapError::Io { .. } => ("fail", "Io"),
-        LdapError::Timeout { .. } => ("fail", "Timeout"),
+        LdapError::Timeout { .. } => ("timeout", "Timeout"),
         _ => ("fail", "other"),
     };
     obs.borrow_mut().errs.push(name.to_string());
@@ -483,9 +490,12 @@ async fn quiesce(io: &MockIo, drv: &tokio::task::JoinHandle<()>) {
 
 /// Poll one call of the code under test to completion, running the scripted server whenever the call is waiting.
 /// None = the call did not complete although the server has nothing more to say (a hang).
+const SILENT_TMO_MS: u64 = 50;
+
 async fn drive<F: Future>(fut: F, srv: &mut Server, io: &MockIo, drv: &tokio::task::JoinHandle<()>, obs: &RefCell<Obs>, ck: &Cookies) -> Option<F::Output> {
     let mut fut = Box::pin(fut);
     let mut idle = 0;
+    let mut advanced = false;
     loop {
         if let Poll::Ready(v) = futures::poll!(fut.as_mut()) {
             return Some(v);
@@ -500,6 +510,11 @@ async fn drive<F: Future>(fut: F, srv: &mut Server, io: &MockIo, drv: &tokio::ta
             idle = 0;
         } else {
             idle += 1;
+            if idle == 4 && srv.went_silent && !advanced {
+                // nothing more will come: let the (paused) clock pass the search's timeout
+                advanced = true;
+                tokio::time::advance(Duration::from_millis(SILENT_TMO_MS + 1)).await;
+            }
             if idle > 20 {
                 return None;
             }
@@ -571,6 +586,8 @@ fn execute(env: &Value, calls: &[String], seed: u64, chunking: u8, obs: &Rc<RefC
             let mut srv = Server {
                 pages: env["pages"].as_array().unwrap().clone(),
                 loss: (env["loss"]["pg"].as_i64().unwrap(), env["loss"]["pos"].as_i64().unwrap()),
+                silent: env["loss"]["how"] == "silent",
+                went_silent: false,
                 nreq: 0,
                 inbuf: vec![],
                 eof: false,
@@ -588,6 +605,10 @@ fn execute(env: &Value, calls: &[String], seed: u64, chunking: u8, obs: &Rc<RefC
             let nreq = |obs: &RefCell<Obs>| obs.borrow().reqs.len();
             let hang = |obs: &RefCell<Obs>| obs.borrow_mut().outs.push(json!({"x": {"k": "hang"}, "st": "?", "nreq": -1}));
             apply_params(&mut ldap, par);
+            if srv.silent {
+                // the search is given a timeout: the wait on the silent server must end with it (C12)
+                ldap.with_timeout(Duration::from_millis(SILENT_TMO_MS));
+            }
             if calls[0] == "search" {
                 obs.borrow_mut().in_call = Some("search".into());
                 let r = drive(ldap.search(base, scope_of(par), filter, attrs), &mut srv, &io, &drv, &obs, &ck).await;
@@ -799,6 +820,13 @@ fn compare(env: &Value, calls: &[String], exp_outs: &[Value], exp_reqs: &[Value]
             bad(&ao["x"]["it"]) || ao["x"]["got"].as_array().map(|g| g.iter().any(bad)).unwrap_or(false)
         };
         let item_owner = own(paged_ctx && !leaked);
+        // the wait the model ends with a timeout error (silent server, timeout set on the search): C12's on every chain
+        let exp_timeout = eo["x"]["e"] == "timeout" || eo["x"]["x"]["e"] == "timeout";
+        if exp_timeout && ao["x"] != eo["x"] {
+            let got = if ao["x"]["k"] == "hang" { "hang".to_string() } else if ao["x"]["k"] == "drain" { format!("drain-{}", ao["x"]["x"]["k"].as_str().unwrap_or("?")) } else { ao["x"]["k"].as_str().unwrap_or("?").to_string() };
+            keys.push((format!("c12:stream:{}:{}:exp-timeout-got-{}", chain, call, got), json!({"call": n, "expected": eo["x"], "got": ao["x"]})));
+            return keys;
+        }
         if ao["x"]["k"] == "hang" {
             keys.push((format!("{}:{}:{}:hang", item_owner, call, chain), json!({"call": n})));
             return keys;
